@@ -26,6 +26,7 @@ type PropConfig struct {
 	Notes     []string          `json:"notes,omitempty"`
 	Select    []string          `json:"select,omitempty"`  // only obligations whose stable name contains a match
 	Exclude   []string          `json:"exclude,omitempty"` // obligations decided by another property's check
+	NoPanic   []string          `json:"nopanic,omitempty"` // zero-annotation sweep: these functions get the nopanic obligations
 	ExtraCmds []string          `json:"extra_cmds,omitempty"`
 }
 
@@ -78,6 +79,10 @@ func cmdCheck(args []string) {
 		fmt.Fprintln(os.Stderr, "ENGINE-FAULT load:", err)
 		os.Exit(2)
 	}
+	for _, k := range pc.NoPanic {
+		v.enableNoPanic(k)
+		pc.Funcs = append(pc.Funcs, k)
+	}
 	queryDir, _ = os.MkdirTemp("", "vcgo-"+id+"-")
 	defer os.RemoveAll(queryDir)
 	timeout := 20
@@ -111,6 +116,16 @@ func cmdCheck(args []string) {
 			continue
 		}
 		local = append(local, k)
+	}
+	if len(local) > 3 && len(pc.NoPanic) == 0 || len(local) > 3 && os.Getenv("VCGO_INPROC") == "" {
+		// several functions: verify them in parallel worker processes
+		rs, err := verifyParallel(*repo, *root, local, pc.NoPanic, timeout, allSolvers, short)
+		if err != nil {
+			fmt.Println("ENGINE-FAULT", err)
+			os.Exit(2)
+		}
+		recs = append(recs, rs...)
+		local = nil
 	}
 	if len(local) > 0 {
 		results := v.runFuncs(local)
